@@ -1,6 +1,7 @@
 import LarkVerif.LexModel
 import LarkVerif.LexTiling
 import LarkVerif.LexEmit
+import LarkVerif.LexCtxTiling
 import LarkVerif.Extracted
 /-! # C07 — the lexer tiles the input by documented precedence; contextual refines basic -/
 namespace Props.C07
@@ -58,6 +59,18 @@ theorem chunking_irrelevant (m : Matcher) (pos : Nat) (a b : List Nat) :
 theorem contextual_refines_basic {m : Matcher} {pos : Nat} {ts ts' : List Nat} (hsub : List.Sublist ts' ts) (hnd : ts.Nodup)
     {t len : Nat} (h : firstMatch m pos ts = some (t, len)) (hmem : t ∈ ts') : firstMatch m pos ts' = some (t, len) :=
   firstMatch_sublist hsub hnd h hmem
+
+/-- **Tiling of the contextual lexer model** (`ContextualLexer.lex`: per emitted token one `next_token` of the sub-lexer of the parser's state).
+    The run consumes a prefix `used` of the state sequence, one state per emitted token; the stretch of each token — the ignored pieces its
+    sub-lexer skipped and the token itself — is consecutive and non-empty, and every piece is the first terminal *of that state's scan list*
+    matching at its start, with keyword retyping (`PieceOf`: the basic lexer's rule restricted to the state's terminals).  The run ends (`CtxEnd`)
+    at the end of the text, or where — after that state's ignored pieces — nothing of its scan list matches: `UnexpectedToken` iff the root
+    lexer finds a token there, otherwise `UnexpectedCharacters`, both with the state's non-ignored terminals as `allowed`. -/
+theorem contextual_lexer_tiles (L : Lexer) (F : Facts) (all : List Nat) (n : Nat)
+    (hpos : ∀ t p len, F.mt t p = some len → 0 < len ∧ p + len ≤ n) (subs : List (List Nat)) (pos : Nat) (h : pos ≤ n) :
+    ∃ q used rest, subs = used ++ rest ∧ used.length = (L.lexCtx F all n subs pos).1.length ∧
+      CtxTiles L F used pos (L.lexCtx F all n subs pos).1 q ∧ q ≤ n ∧ CtxEnd L F all n rest q (L.lexCtx F all n subs pos).2 :=
+  lexCtx_tiles L F all n hpos subs pos h
 
 /-- **Keyword exception**, as decision logic. -/
 theorem keyword_exception (L : Lexer) (F : Facts) (sorted : List Nat) (t pos len : Nat) :
